@@ -27,6 +27,7 @@ def _generate_signal(self: "PackedEncoder", field: "ref:StructField", extension:
     may_raise(ValueError)
     no_raise_if(all_fixed(self.fcp, field.type, self.ctx.unroll_arrays))
     must_raise_if(not all_fixed(self.fcp, field.type, self.ctx.unroll_arrays))
+    option("no_unfold", ["type_width", "enum_width"])
     ghost_set(self.gnames, self.gnames + ([prefix + field.name] if is_leaf(field.type, self.ctx.unroll_arrays) else []))
     ensures(tiled(self.encoding, self.bitstart, self.gnames) and leafy(self.fcp, self.encoding, self.ctx.unroll_arrays))
     ensures(self.gnames == old(self.gnames) + field_names(self.fcp, field.type, field.name, prefix, self.ctx.unroll_arrays))
@@ -45,6 +46,7 @@ def _generate_struct(self: "PackedEncoder", struct: "ref:Struct", extension: "re
     may_raise(ValueError)
     no_raise_if(fields_fixed(self.fcp, sorted_fields(struct), self.ctx.unroll_arrays, len(sorted_fields(struct))))
     must_raise_if(not fields_fixed(self.fcp, sorted_fields(struct), self.ctx.unroll_arrays, len(sorted_fields(struct))))
+    option("no_unfold", ["type_width", "enum_width"])
     ensures(tiled(self.encoding, self.bitstart, self.gnames) and leafy(self.fcp, self.encoding, self.ctx.unroll_arrays))
     ensures(self.gnames == old(self.gnames) + struct_names(self.fcp, sorted_fields(struct), prefix, self.ctx.unroll_arrays,
                                                              len(sorted_fields(struct))))
@@ -64,6 +66,7 @@ def _generate_array_type(self: "PackedEncoder", type: "ref:ArrayType", field: "r
     may_raise(ValueError)
     no_raise_if(type.size <= 0 or all_fixed(self.fcp, type.underlying_type, True))
     must_raise_if(type.size > 0 and not all_fixed(self.fcp, type.underlying_type, True))
+    option("no_unfold", ["type_width", "enum_width"])
     ensures(tiled(self.encoding, self.bitstart, self.gnames) and leafy(self.fcp, self.encoding, self.ctx.unroll_arrays))
     ensures(self.gnames == old(self.gnames) + arr_names(self.fcp, type.underlying_type, field.name, prefix, True, type.size))
     ensures(len(self.encoding) >= len(old(self.encoding)) and seq_extract(self.encoding, 0, len(old(self.encoding))) == old(self.encoding))
